@@ -27,7 +27,7 @@ PROPS = {
         R("rand", "typed", "typediter", 60, 40)]),
     "C05": dict(tags=["C05"], runs=[
         R("rand", "64", "collect", 160, 50), R("rand", "32", "collect", 160, 50), R("det", "32", "collect", 80, 50),
-        R("rand", "typed", "typedcollect", 60, 40)]),
+        R("rand", "typed", "typedcollect", 60, 40), R("rand", "64", "inline", 1, 1), R("rand", "32", "inline", 1, 1)]),
     "C06": dict(tags=["C06"], runs=[
         R("rand", "64", "alloc", 140, 70), R("rand", "32", "alloc", 140, 70),
         R("rand", "32", "alloc", 140, 70, extra=["minalign"]), R("rand", "64", "alloc", 80, 70, extra=["minalign"]),
